@@ -550,6 +550,7 @@ func init() {
 		Rule: "HTML trees of 2-25 elements, depth <= 4 (5 in thorough), over 29 tags (div/span/p/b/a, properly and improperly nested table parts, ul/li, img/input/br/button/select/textarea, a custom tag); six elements in ten get an explicit display among all 25 supported values (block, inline, inline-block, list-item, flow-root, table, inline-table, every table-* value, flex, inline-flex, grid, inline-grid, none, contents), one in four float / position (absolute, fixed, relative, running()) / float:footnote / columns / column-span; colspan/rowspan/span attributes in {0,1,2,3,9,-1,x,70000} on any element; " +
 			"0-4 style rules adding ::before/::after/::marker boxes of block/table-cell/table-row/inline-block/grid/floated/absolute display and display overrides for table tags; display on html/body; presentational hints on/off. Pipeline: NewHTML -> GetAllComputedStyles -> BuildFormattingStructure (as boxes_test.go). " +
 			"Oracle: a validity predicate written from CSS 2.1 9.2 / 17.2.1, Flexbox 4 and Grid 6 over the resulting tree (see DESIGN.md C09); children out of normal flow and the content of running elements are exempt from the parent/child type rules, as in the repository's own sanityChecks helper. " +
+			"Loaded replaced elements (PNG data: URI): block-level box exactly for a block-level outer display type. " +
 			"Non-trivial: the tree holds at least one anonymous box (a box sharing element and pseudo type with its parent).",
 		ImportantLabels: []string{"table", "flex-container", "grid-container", "colspan", "rowspan", "out-of-flow-child", "anonymous-boxes", "running"},
 		Assumptions:     []string{"crashes while building the tree belong to C01 and are excluded"},
